@@ -435,6 +435,17 @@ fn chains(rng: &mut Rng) {
                 }
             }
             v.require(used.values().all(|c| *c == 0), "chained.every_pair_exactly_once", || format!("{pairs:?} -> {chains:?}"));
+            // maximal: no chain could have been continued by a unique unused pair — i.e. no chain END
+            // is the unique start of another chain (and vice versa)
+            for (a, ca) in chains.iter().enumerate() {
+                let end = *ca.last().unwrap();
+                let starts: Vec<usize> = (0..chains.len()).filter(|b| *b != a && chains[*b][0] == end).collect();
+                let outgoing = pairs.iter().filter(|p| p[0] == end).count();
+                let incoming = pairs.iter().filter(|p| p[1] == end).count();
+                if starts.len() == 1 && outgoing == 1 && incoming == 1 {
+                    v.require(false, "chained.chains_are_maximal", || format!("{pairs:?} -> {chains:?}: chain {a} ends at {end} where chain {} starts", starts[0]));
+                }
+            }
             let ls: Vec<Vec<usize>> = chains.iter().map(|c| c.iter().map(|x| *x as usize).collect()).collect();
             lists_tok(&mut o, &ls);
         }
